@@ -375,6 +375,9 @@ impl OutstationSession {
         loop {
             if let Err(err) = self.run_idle_state(io, reader, writer, database).await {
                 self.state.reset();
+                // events written to a response that was never confirmed must be
+                // reported again in the next session, not cleared by a later CONFIRM
+                database.reset();
                 return err;
             }
         }
